@@ -43,9 +43,8 @@ def plan(tier, seed, kf_ids):
             if w in (8, 64) and f == w // 2:
                 for form in range(4):
                     jobs.append(mk("c18_divzero%d_%s" % (form, tg), "divzero", "%s, %d" % (t, form), "Wrapping<%s>: division/remainder by zero "
-                                   "(form %d) panics and never returns" % (al, form), al, allow=[r"division by zero", r"attempt to divide by zero",
-                                   r"attempt to calculate the remainder with a divisor of zero", r"option::expect_failed"],
-                                   expect_fail=[r"zero|option::expect_failed"]))
+                                   "(form %d) panics and never returns" % (al, form), al, allow=[r"^(?!MUSTPANIC).* @ (?!src/)"],
+                                   expect_fail=[r"^(?!MUSTPANIC).* @ (?!src/)"]))
             if f == w // 2:
                 jobs.append(mk("c18_conv_" + tg, "conv", t, "Wrapping<%s>::from_num(i64 / u128 / I20F12) and to_num wrap like F" % al, al))
                 if w in (8, 32) or not q:
